@@ -255,6 +255,111 @@ def upclose_oracle(line, res):
     return "; ".join(why) if why else None
 
 
+# ---------------- kind upown: the upstream closes every transport / socket it owns
+def _upown_alpha(up):
+    return ["ok", "tc", "mu", "tm"] if up == "udp" else ["ok", "mu"]
+
+
+# the catalogue: every transport / socket the upstream can own exists at Close, idle and in flight
+UPOWN_CATALOGUE = {
+    "udp": [[], ["ok"], ["mu"], ["tc"], ["tm"], ["tc", "tm"], ["tm", "tc"], ["tc", "tm", "tc"],
+            ["tc", "tm", "tc", "mu"], ["tm", "tm", "mu", "ok"], ["mu", "tc", "tc"]],
+    "tcp": [[], ["ok"], ["mu"], ["ok", "mu", "ok"], ["mu", "mu", "ok"]],
+    "tls": [[], ["ok"], ["mu"], ["ok", "mu", "ok"], ["mu", "ok", "mu"]],
+    "tcp+pipeline": [[], ["ok"], ["mu"], ["mu", "ok"], ["ok", "mu", "mu"]],
+    "tls+pipeline": [[], ["ok"], ["mu"], ["ok", "mu"], ["mu", "ok", "mu"]],
+    "https": [[], ["ok"], ["mu"], ["ok", "mu"], ["mu", "mu", "ok"]],
+    "h3": [[], ["ok"], ["mu"], ["ok", "mu"]],
+    "quic": [[], ["ok"], ["mu"], ["ok", "mu"], ["mu", "mu"]],
+}
+# end of life of a pipelined connection (all 65536 wire ids handed out) with a query still in flight
+UPOWN_EOL = [
+    ("udp", ["mu", "ok", "mu"], 65535), ("udp", ["tm", "tc", "mu"], 65535), ("udp", ["ok", "mu", "ok"], 65534),
+    ("tcp+pipeline", ["mu", "ok", "mu"], 65535), ("tcp+pipeline", ["ok", "mu", "ok"], 65534),
+    ("tls+pipeline", ["mu", "ok"], 65535), ("tls+pipeline", ["mu", "mu", "ok"], 65534),
+]
+UPOWN_H1 = [["ok", "mu", "ok"], ["mu", "mu"], ["ok"]]
+
+
+def upown_gen(rng, tier):
+    out = []
+    n = [0]
+
+    def add(up, plan, q0=None, alpn=None):
+        l = "o%d up=%s plan=%s" % (n[0], up, ",".join(plan) if plan else "-")
+        if q0 is not None:
+            l += " q0=%d" % q0
+        if alpn:
+            l += " alpn=%s" % alpn
+        out.append(l)
+        n[0] += 1
+
+    for up in UPS:
+        for plan in UPOWN_CATALOGUE[up]:
+            add(up, plan)
+    for up, plan, q0 in UPOWN_EOL:
+        add(up, plan, q0=q0)
+    for plan in UPOWN_H1:
+        add("https", plan, alpn="h1")
+    reps = budget(tier, 60, 600)
+    for _ in range(reps):
+        up = rng.choice(UPS + ["udp", "udp"])
+        plan = [rng.choice(_upown_alpha(up)) for _ in range(rng.randint(1, 5))]
+        q0 = None
+        alpn = None
+        if up in ("udp", "tcp+pipeline", "tls+pipeline") and rng.random() < 0.3:
+            q0 = 65536 - rng.randint(1, 3)
+        if up == "https" and rng.random() < 0.4:
+            alpn = "h1"
+        add(up, plan, q0=q0, alpn=alpn)
+    return out
+
+
+def upown_oracle(line, res):
+    f = gens.fields(line)
+    r = gens.fields(res)
+    if "close" not in r:
+        return None
+    if r.get("close") != "ok" or r.get("close2") != "ok":
+        return "Close did not return normally (%s, %s)" % (r.get("close"), r.get("close2"))
+    why = []
+    infl = [] if r.get("infl", "-") == "-" else r["infl"].split(",")
+    for i, x in enumerate(infl):
+        if x == "ok":
+            why.append("in-flight exchange #%d was answered after Close" % i)
+        elif x != "err":
+            why.append("in-flight exchange #%d did not fail within 2 s of Close" % i)
+    if r.get("after") != "err":
+        why.append("an exchange started after Close succeeded")
+    legs = r.get("legs", "-")
+    if legs != "-":
+        names = ["UDP leg", "TCP fallback leg"]
+        for i, x in enumerate(legs.split(",")):
+            if x != "err":
+                why.append("the %s still exchanges after Close (not closed)" % names[i])
+    for k, what in (("udp", "UDP socket(s) of the upstream"), ("tcp", "TCP connection(s) of the upstream"),
+                    ("srv", "connection(s) seen by the server")):
+        if r.get(k, "0") != "0":
+            why.append("%s %s still open after Close" % (r[k], what))
+    return "; ".join(why) if why else None
+
+
+def upown_classify(line, res):
+    f = gens.fields(line)
+    plan = [] if f["plan"] == "-" else f["plan"].split(",")
+    c = f["up"]
+    if "q0" in f:
+        c += "/eol"
+    if f.get("alpn"):
+        c += "/" + f["alpn"]
+    idle = any(p in ("ok", "tc") for p in plan)
+    busy = any(p in ("mu", "tm") for p in plan)
+    c += "/" + ("unused" if not plan else ("idle+inflight" if idle and busy else ("idle" if idle else "inflight")))
+    if f["up"] == "udp":
+        c += "/fb" if any(p in ("tc", "tm") for p in plan) else "/nofb"
+    return c
+
+
 # ---------------- kind startup
 PROTOS = ["udp", "tcp", "gnet", "http", "fasthttp", "tls", "https", "quic"]
 
@@ -375,6 +480,8 @@ PROPS["C18"] = dict(
         dict(name="upclose", gen=upclose_gen, oracle=upclose_oracle,
              classify=lambda l, r: gens.fields(l)["up"] + "/x" + gens.fields(l)["x"],
              nontrivial=lambda l, r: True, timeout=600),
+        dict(name="upown", gen=upown_gen, oracle=upown_oracle, classify=upown_classify,
+             nontrivial=lambda l, r: True, timeout=900),
         dict(name="startup", gen=startup_gen, oracle=startup_oracle, classify=startup_classify,
              nontrivial=lambda l, r: True, timeout=900,
              env={}),
@@ -384,15 +491,27 @@ PROPS["C18"] = dict(
          "(fake quic.Connection counting CloseWithError) with a gated counting dialer, Close placed at a random point (classes: Close first / while dials or replies are "
          "pending / at quiescence, honouring and context-ignoring dialer, idle timer); upclose: every upstream "
          "scheme x {never used, used, exchange in flight against a silent peer}, one child process per case; "
+         "upown: every upstream scheme driven by a plan of answered / never-answered exchanges against a name-steered "
+         "fake server so that every transport and socket the upstream owns exists at Close, idle and in flight (udp: "
+         "UDP socket + TCP fallback connections after TC=1 answers; reuse: idle + busy connections; pipelined: shared, "
+         "busy and end-of-life connections via a preset wire id; https over h2 and http/1.1; h3; quic), then Close, "
+         "Close, in-flight exchanges, a new exchange on the upstream and on each leg of a udp upstream, sockets of "
+         "the process (Opt.Control + /proc/self/fd) and connections still open at the server; compared with the "
+         "composite model (Net/ShutdownOwn.v); "
          "startup: failing listener at every position of a list holding all 8 listener kinds (port in use, "
          "unknown protocol, bad certificate path, bad address), failing upstream / domain set / rule / cache / "
          "metrics listener, in-process and through the real binary; distinct = distinct case line",
     assumptions=["loopback sockets; net.Pipe connections for the scripted transports; quiescence = no observable "
                  "activity for 14 ms; Close must return within 2 s, router close within 5 s",
                  "injected dialers honour context cancellation (dm=honour) or complete late (dm=ignore)"],
-    trusted=["C18: small-step models at atomic-action granularity; Go mutex/channel atomicity, net/http, quic-go, "
+    trusted=["C18: which parts an upstream owns and which its Close names (uo_owned, uo_close_prog) is read off "
+             "upstream.go by hand and tied to the code by kind upown; the library parts (connTracker, quic.Transport, "
+             "UDP socket) are counters, not models of net/http / quic-go",
+             "C18: small-step models at atomic-action granularity; Go mutex/channel atomicity, net/http, quic-go, "
              "gnet, fasthttp modelled not verified; 'returns promptly' is timed, not proved"],
-    level_note="partial: the theorems cover the close-race logic of the reuse and pipeline transports at "
-               "atomic-action granularity and the start-up/close sequence of the router; promptness, the kernel's "
-               "socket release and the HTTP/QUIC libraries are sampled by the harness",
+    level_note="partial: the theorems cover the close-race logic of the reuse, pipeline and quic transports at "
+               "atomic-action granularity, the upstream as a composite of the transports / sockets it owns (Close "
+               "closes every owned part exactly once, from every reachable state) and the start-up/close sequence of "
+               "the router; promptness, the kernel's socket release and the HTTP/QUIC libraries are sampled by the "
+               "harness",
 )
